@@ -17,6 +17,8 @@ def check(ix, rep):
     ltl, stl, absast = P.parser_classes(ix)
     classes = [ltl, stl, absast]
     P.check_listener(ix, rep, grammars)
+    rep.floor('methods of RTAMTException that handle the constructor argument', P.check_exception_constructor(ix, rep), 2)
+    P.check_subspec_registration(ix, rep)
     ctx = GP.context_classes(ix.module('rtamt.antlr.parser.stl.StlParser'))
     nopt = P.check_optional(ix, rep, stl, rules, ctx) + P.check_optional(ix, rep, ltl, rules, ctx)
     rep.floor('dereferences of optional grammar elements', nopt, 8)
